@@ -84,11 +84,23 @@ fn run_t<T: Elem>(case: &mut Case) -> Outcome {
     // true partial pivoting the growth stays small; a thresholded or lazy exchange rule lets it compound like prod(1+c_j)
     if !T::EXACT && kind == "dense" && n >= 5 && case.src.coin() {
         let z = T::from_int(0);
+        // complex: in half of the traps every entry below the diagonal is purely imaginary (a pivot search that looks at
+        // real parts instead of moduli sees zeros there and never exchanges)
+        let rot = T::NAME == "cmplx" && case.src.coin();
         for j in 0..n {
             let sgn = if case.src.coin() { 1i64 } else { -1 };
             let k = 9 + case.src.below(55) as i64;
             for i in 0..n {
-                a0[i][j] = if i == j { T::from_int(sgn) } else if i > j { T::from_int(-k * sgn).scale2(-3) } else if j == n - 1 { T::from_int(1) } else { z };
+                a0[i][j] = if i == j {
+                    T::from_int(sgn)
+                } else if i > j {
+                    let v = T::from_int(-k * sgn).scale2(-3);
+                    if rot { v.times_i() } else { v }
+                } else if j == n - 1 {
+                    T::from_int(1)
+                } else {
+                    z
+                };
             }
         }
         kind = "growth-trap";
